@@ -8,7 +8,7 @@ for ID in "$@"; do
   git -C /repo worktree remove --force $WT >/dev/null 2>&1
   git -C /repo worktree add -q --detach $WT HEAD
   if ! git -C $WT apply $SD/$ID/patch.diff 2>/dev/null; then echo "$ID patch-does-not-apply"; git -C /repo worktree remove --force $WT; continue; fi
-  OUT=$(cd $VD && VERIF_REPO=$WT ./check.sh $P quick 2>&1); RC=$?
+  OUT=$(cd $VD && VERIF_EVIDENCE_DIR=/tmp/evidence-scratch VERIF_REPO=$WT ./check.sh $P quick 2>&1); RC=$?
   SIGS=$(echo "$OUT" | grep '^  signature:' | sed 's/^  signature: //' | sort -u | head -3 | tr '\n' ';')
   echo "$ID $(basename $VD) exit=$RC $SIGS"
   git -C /repo worktree remove --force $WT
